@@ -45,6 +45,8 @@ def units():
 def prepare(repo, work):
     dst = os.path.join(work, "repo")
     shutil.copytree(repo, dst, ignore=shutil.ignore_patterns("target", ".git"))
+    if not os.path.exists(os.path.join(dst, "Cargo.lock")) and os.path.exists("/repo/Cargo.lock"):
+        shutil.copy("/repo/Cargo.lock", os.path.join(dst, "Cargo.lock"))
     by_target = {}
     for f in sorted(os.listdir(KDIR)):
         if not f.endswith(".rs"):
